@@ -270,7 +270,19 @@ def hyp_shard(rec, shard):
         rec.hyp(read_cases(clip=True), n, label='clip', seed_offset=200 + k)
 
 
+def volume_cases():
+    ev = [{'type': 'control_change', 'channel': i % 2, 'control': i % 128, 'value': (i * 7) % 128, 'time': i % 200} for i in range(3000)]
+    ev += [{'type': 'marker', 'text': 'm' * 20000, 'time': 128}, {'type': 'sysex', 'data': [i % 128 for i in range(16500)], 'time': 0},
+           {'type': 'end_of_track', 'time': 0}]
+    fd = {'type': 1, 'tpb': 480, 'tracks': [ev] + [[{'type': 'end_of_track', 'time': 0}] for _ in range(270)]}
+    yield {'kind': 'write', 'file': fd}
+    yield {'kind': 'read', 'file': fd, 'choices': {'header_extra': 3, 'ev': [[[i % 3 != 0, i % 3, 0] for i in range(len(ev))]] +
+                                                   [[[False, 0, 0]] for _ in range(270)]}}
+
+
 def main(ctx):
+    for case in volume_cases():
+        ctx.check(case, sample=False)
     n = 1500 if ctx.tier == 'quick' else 20000
     w = 5 if ctx.tier == 'quick' else 16
     ctx.pmap('hyp_shard', [('write', k, n // w) for k in range(w)] + [('read', k, n // w) for k in range(w)] +
